@@ -18,6 +18,9 @@ GRIDS = {
     "G_flip": lambda: fm.UniformGrid((3, 4), axes_increase=[True, False]),
     "H": lambda: fm.UniformGrid((3, 4), spacing=(2.0, 1.0)),  # other geometry, same shape
     "nogrid": lambda: fm.NoGrid(2),
+    # grid-less data of the same rank with explicitly declared, different shapes
+    "nogrid3": lambda: fm.NoGrid(data_shape=(3,)),
+    "nogrid5": lambda: fm.NoGrid(data_shape=(5,)),
     # square grid (3x3 cells: a transpose keeps the shape), three layouts
     "S": lambda: fm.UniformGrid((4, 4)),
     "S_rev_flip": lambda: fm.UniformGrid((4, 4), axes_reversed=True, axes_increase=[True, False]),
@@ -89,7 +92,8 @@ def _build(spec, side):
 
 def _same_locations(a, b):
     if isinstance(a, fm.NoGrid) or isinstance(b, fm.NoGrid):
-        return isinstance(a, fm.NoGrid) and isinstance(b, fm.NoGrid) and a.dim == b.dim
+        return (isinstance(a, fm.NoGrid) and isinstance(b, fm.NoGrid) and a.dim == b.dim
+                and tuple(a.data_shape) == tuple(b.data_shape))
     if isinstance(a, fm.UnstructuredGrid) != isinstance(b, fm.UnstructuredGrid):
         return False
     pa = {tuple(np.round(p, 9)) for p in a.data_points}
@@ -270,7 +274,8 @@ def h_rewrite(ctx):
 
 def _cmp_grid(a, b):
     if isinstance(a, fm.NoGrid) or isinstance(b, fm.NoGrid):
-        return isinstance(a, fm.NoGrid) and isinstance(b, fm.NoGrid) and a.dim == b.dim
+        return (isinstance(a, fm.NoGrid) and isinstance(b, fm.NoGrid) and a.dim == b.dim
+                and tuple(a.data_shape) == tuple(b.data_shape))
     return _same_locations(a, b)
 
 
@@ -292,7 +297,7 @@ ASSUMPTIONS = ["field interactions are explored in two sub-products (grid x mask
 
 def families(tier):
     q = tier == "quick"
-    allg = [g for g in GRIDS if g not in ("L", "L_flip") and not g.startswith("S")]
+    allg = [g for g in GRIDS if g not in ("L", "L_flip", "nogrid3", "nogrid5") and not g.startswith("S")]
     fams = [
         dict(name="link:grid_x_mask", ref="vf.props.c07:h_link",
              params={"grids": allg, "units": ["m"], "masks": MASKS, "vary_time": False, "vary_foo": False},
@@ -307,6 +312,11 @@ def families(tier):
                      "vary_time": False, "vary_foo": False},
              bounds="producer x consumer: square 3x3-cell grid in three layouts (plain, transposed + flipped, flipped) or "
                     "unset x masks FLEX / two masks no transpose or flip maps onto themselves / nomask",
+             must_cover=["ok", "meta-error"]),
+        dict(name="link:nogrid_shapes", ref="vf.props.c07:h_link",
+             params={"grids": ["unset", "nogrid3", "nogrid5", "L"], "units": ["m"], "masks": ["FLEX"], "vary_time": False,
+                     "vary_foo": False, "consumers": 2},
+             bounds="one producer, two consumers: grid-less data with explicitly declared shape (3,) / (5,), a 1-D grid, unset",
              must_cover=["ok", "meta-error"]),
         dict(name="link:unstructured_location", ref="vf.props.c07:h_link",
              params={"grids": ["unset", "U_points", "U_cells", "G"], "units": ["m"], "masks": ["FLEX"],
